@@ -4,12 +4,15 @@ Engine P.  Sections:
   reflections-H<n>     all spacelike normals of the lattice {-1,-0.4,0,0.5,1.2}^(n+1) (Minkowski norm > 0.2)
                        + generic ones, single (n+1,) and composite (2,1,n+1) layout: R = Hyperplane(w).
                        reflection_across() is the reflection in w (involution, isometry, det -1, fixes the
-                       wall, negates w), from_reflection(R) (Geodesic.from_reflection in H^2) gives the wall back
+                       wall, negates w), from_reflection(R) (Geodesic.from_reflection in H^2) gives the wall back, also
+                       from Isometry(c * matrix of R), c in {-1, 2, 0.5, -3} (one c per case and member, round-robin;
+                       keys from_reflection/rescaled-matrix/...)
   reflections-ideal-basis  the same walls given by n ideal points: Subspace / Geodesic / Segment .reflection_across()
                        (+ walls at distance 3, 5, 7 from the origin, keys .../far-wall; the matrix of the reflection
                        handed to from_reflection as an Isometry and as a bare ndarray = Isometry(ndarray))
   non-reflections      conjugates of rotations, identity, loxodromics, parabolic (H^2), rotary and glide
-                       reflections (also by 1e-3) are rejected with GeometryError; conjugators up to distance 5
+                       reflections (also by 1e-3) are rejected with GeometryError; conjugators up to distance 5; every
+                       one also as Isometry(c * matrix), c in {-1, 2, 0.5, -3} (keys .../rescaled-matrix)
   coxeter-reflections  generators of hyperbolic_rep() of triangle groups (and rank-4 simplex groups) and their
                        conjugates by powers of the Coxeter element: from_reflection / reflection_across round trip
   fixed-points         g h g^-1, g = origin_to(p) for every lattice point p, h standard rotation (angles down to
@@ -217,6 +220,43 @@ def _case_reflection(case):
             prob = wall_problem(p3, w, "from_reflection")
             if prob:
                 v.append(_V("from_reflection/ndarray/" + prob[0].split("/")[-1], "from_reflection(matrix of the reflection in %s, as an ndarray) [%s]: %s" % (_f(w), layout, prob[1])))
+    # c * R is the same isometry as R (projective map; fixed_point() already treats it so): the same wall comes back.
+    # Composite reflections take one scale per member.
+    if not v and case.get("mscales"):
+        cs = [float(c) for c in case["mscales"]]
+        Mc = np.array(R.matrix, dtype=float) * (cs[0] if layout == "single" else np.array(cs)[:, None, None])
+        ctag = "Isometry(%s * matrix of the reflection in %s) [%s]" % (cs, _f(ws), layout)
+        Rc = H.Isometry(Mc.copy())
+        try:
+            h4 = H.Hyperplane.from_reflection(Rc)
+        except GeometryError as e:
+            return {"v": [_V("from_reflection/rescaled-matrix/rejects-reflection", "Hyperplane.from_reflection(%s) raises GeometryError: %s" % (ctag, e))],
+                    "t": t + 1, "o": "rejected-rescaled", "nt": True}
+        t += 1
+        pd4 = np.asarray(h4.proj_data, dtype=float)
+        pd4 = [pd4] if layout == "single" else ([pd4[i] for i in range(len(ws))] if pd4.ndim == 3 and pd4.shape[0] == len(ws) else None)
+        if pd4 is None:
+            return {"v": [_V("from_reflection/rescaled-matrix/shape", "from_reflection(%s) data has shape %r" % (ctag, np.shape(h4.proj_data)))], "t": t}
+        for w, p4 in zip(ws, pd4):
+            prob = wall_problem(p4, w, "from_reflection")
+            if prob:
+                v.append(_V("from_reflection/rescaled-matrix/" + prob[0].split("/")[-1], "from_reflection(%s): %s" % (ctag, prob[1])))
+        if n == 2 and not v:
+            try:
+                gd = np.asarray(H.Geodesic.from_reflection(Rc).proj_data, dtype=float)
+            except GeometryError as e:
+                return {"v": [_V("from_reflection/rescaled-matrix/geodesic-rejects-reflection", "Geodesic.from_reflection(%s) raises GeometryError: %s" % (ctag, e))],
+                        "t": t + 1, "o": "rejected-rescaled", "nt": True}
+            t += 1
+            gd = [gd] if layout == "single" else [gd[i] for i in range(len(ws))]
+            for w, e in zip(ws, gd):
+                ok = e.shape == (2, 3) and _finite(e) and np.max(np.abs(e)) < 1e6 * (1.0 + np.max(np.abs(w)) / math.sqrt(float(hyp.mink(w, w))))
+                if ok:
+                    ee = np.sum(e * e, axis=-1)
+                    ok = (np.max(np.abs(hyp.mink(e, e)) / ee) <= 1e-7 and np.max(np.abs(hyp.mink(e, w[None, :])) / np.sqrt(ee * float(np.sum(w * w)))) <= 1e-7
+                          and float(hyp.proj_sin_err(e[0], e[1])) >= 1e-6)
+                if not ok and not v:
+                    v.append(_V("from_reflection/rescaled-matrix/geodesic", "Geodesic.from_reflection(%s) = %s is not the wall of %s" % (ctag, _f(e), _f(w))))
     if n == 2:
         for how in ("isometry", "ndarray"):
             try:
@@ -245,8 +285,8 @@ def _case_reflection(case):
                 if not ok and not v:
                     v.append(_V("from_reflection/geodesic" + ("" if how == "isometry" else "-ndarray"),
                                 "Geodesic.from_reflection(reflection in %s%s) = %s is not the wall" % (_f(w), "" if how == "isometry" else ", matrix as an ndarray", _f(e))))
-    o = "ok|%s|%d|%s" % (layout, int(round(10 * float(hyp.mink(ws[0], ws[0])) / float(case.get("scales", [1.0])[0]) ** 2)),
-                         ",".join("%g" % x for x in case.get("scales", [])))
+    o = "ok|%s|%d|%s|%s" % (layout, int(round(10 * float(hyp.mink(ws[0], ws[0])) / float(case.get("scales", [1.0])[0]) ** 2)),
+                            ",".join("%g" % x for x in case.get("scales", [])), ",".join("%g" % x for x in case.get("mscales", [])))
     return {"v": v, "t": t, "o": o, "nt": True}
 
 
@@ -339,6 +379,11 @@ def case_nonreflection(case):
     n, kind, param = case["n"], case["kind"], case["param"]
     iso = _conj(H, n, case["g"], _standard(H, n, kind, param))
     tag = "conjugate by origin_to(%s) of the standard %s(%s) of H^%d" % (_f(case["g"]), kind, param, n)
+    c = float(case.get("scale", 1.0))
+    if c != 1.0:
+        # the same non-reflection given by a rescaled matrix: still not a reflection
+        iso = H.Isometry(c * np.array(iso.proj_data, dtype=float))
+        tag = "Isometry(%g * matrix of the %s)" % (c, tag)
     v = []
     try:
         h = H.Hyperplane.from_reflection(iso)
@@ -354,10 +399,9 @@ def case_nonreflection(case):
         except GeometryError:
             pass
     far = float(np.linalg.norm(case["g"])) > 0.98
-    if far:
-        for x in v:
-            x["key"] += "/far-conjugate"
-    return {"v": v, "t": 2, "o": ("%s|H%d|%srejected" % (kind, n, "far|" if far else "")) if not v else "accepted", "nt": kind != "identity"}
+    for x in v:
+        x["key"] += ("/far-conjugate" if far else "") + ("/rescaled-matrix" if c != 1.0 else "")
+    return {"v": v, "t": 2, "o": ("%s|H%d|%s%srejected" % (kind, n, "far|" if far else "", "" if c == 1.0 else "x%g|" % c)) if not v else "accepted", "nt": kind != "identity"}
 
 
 def case_coxeter(case):
@@ -427,6 +471,7 @@ def _qnorm(x):
 
 SMALL_ANGLES = [1e-3, 1e-5, 1e-7]
 MATRIX_SCALES = [-1.0, 2.0, 0.5]        # c * A is the same projective map as A (property C12)
+REFLECTION_MATRIX_SCALES = MATRIX_SCALES + [-3.0]      # from_reflection: the same, and a negative non-unit scale
 
 
 def case_fixed(case):
@@ -635,6 +680,15 @@ def _far_tag(case):
 
 
 def reflection_cases(n, values, ngen, seed):
+    """Every case also carries the scales c (one per member, round-robin over REFLECTION_MATRIX_SCALES) by which the matrix of its
+    reflection is multiplied before it is handed to from_reflection once more."""
+    L = len(REFLECTION_MATRIX_SCALES)
+    for k, case in enumerate(_reflection_cases(n, values, ngen, seed)):
+        case["mscales"] = [REFLECTION_MATRIX_SCALES[(k + i) % L] for i in range(len(case["normals"]))]
+        yield case
+
+
+def _reflection_cases(n, values, ngen, seed):
     ws = lattice_normals(n, values) + generic_normals(n, ngen, seed)
     far = far_normals(n, seed)
     for i, w in enumerate(far):
@@ -682,15 +736,20 @@ def nonreflection_cases(q, seed):
         # non-reflections that are close to a reflection: a glide reflection of translation length 1e-3, a rotary
         # reflection by 1e-3 rad (they differ from every reflection by 1e-3)
         near = [("glide", 1.001)] + ([("rotoreflection", 1e-3)] if n >= 3 else [])
+        L = len(REFLECTION_MATRIX_SCALES)
         for g in _points(n, q, seed):
             for kind, param in std + near:
                 yield {"n": n, "g": g, "kind": kind, "param": param}
+                # the same isometry given by c * matrix is still not a reflection
+                for c in REFLECTION_MATRIX_SCALES:
+                    yield {"n": n, "g": g, "kind": kind, "param": param, "scale": c}
         # conjugates by isometries that move the origin by 3 and 5 (matrices of norm e^6, e^10)
         for D in FAR_DISTANCES[:2]:
             for k in range(3):
                 g = [math.tanh(D) * float(x) for x in lattice.generic_dir(n, 320 + k, seed)]
-                for kind, param in std:
+                for j, (kind, param) in enumerate(std):
                     yield {"n": n, "g": g, "kind": kind, "param": param}
+                    yield {"n": n, "g": g, "kind": kind, "param": param, "scale": REFLECTION_MATRIX_SCALES[(j + k) % L]}
 
 
 def fixed_cases(q, seed):
@@ -1130,6 +1189,7 @@ def run(ctx):
                "isometries moving the origin by at most 5 (beyond that the eigenvalues of a matrix of norm e^2D no longer separate a rotation from a reflection)" % FAR_DISTANCES)
     ctx.assume("a bare ndarray handed to from_reflection means Isometry(ndarray) (a matrix acting on row vectors, like every other array in the library)")
     ctx.assume("rescaled matrices c * A, c in %s, are the same isometry (projective map, property C12); rotation angles >= 1e-7" % MATRIX_SCALES)
+    ctx.assume("from_reflection: Isometry(c * M), c in %s, is the isometry of M: the wall of a rescaled reflection comes back, a rescaled non-reflection is rejected" % REFLECTION_MATRIX_SCALES)
     ctx.assume("max_eigval=False / sort_eigvals=False: only a fixed point in the closed ball / the two ideal endpoints of a loxodromic's axis in any order are demanded")
     ctx.assume("composite normals use the layout (N, 1, n+1) that Hyperplane accepts; (N, n+1) is outside the property")
     ctx.assume("conjugating isometries are origin_to() of lattice points with |k| <= %s; translation multipliers in %s"
@@ -1152,7 +1212,8 @@ def run(ctx):
                     domains={"lattice": values, "spacelike normals": len(lattice_normals(n, values)), "generic normals": 6 if q else 24,
                              "layouts": ["(n+1,)", "(2,1,n+1)"],
                              "far walls": "unit normals (sinh D, cosh D d), D in %s, d in {e_1, -e_n, diagonal, 2 generic}; single, rescaled by -0.01, composite with a near and with another far wall" % FAR_DISTANCES,
-                             "from_reflection argument": ["Isometry", "ndarray (= Isometry(ndarray))"],
+                             "from_reflection argument": ["Isometry", "ndarray (= Isometry(ndarray))",
+                                                          "Isometry(c * matrix), c round-robin over %s (composites: one c per member)" % REFLECTION_MATRIX_SCALES],
                              "scaled normals": "every %d-th normal of the list multiplied by each of %s (single; composites pairing two scales and a "
                                                "scaled with an unscaled normal): same wall, same closed-form reflection" % (SCALED_STRIDE[n], NORMAL_SCALES)})
     if want("reflections-ideal-basis"):
@@ -1162,7 +1223,8 @@ def run(ctx):
     if want("non-reflections"):
         ctx.product("non-reflections", "checks.c15:case_nonreflection", list(nonreflection_cases(q, seed)), chunk=32,
                     domains={"n": [2, 3, 4], "angles": ANGLES, "multipliers": LOX, "kinds": ["identity", "rotation", "loxodromic", "parabolic(n=2)", "rotoreflection(n>=3)", "glide"],
-                             "near-reflections": "glide(1.001), rotoreflection(1e-3)", "far conjugators": "3 generic directions at distance 3 and 5 (keys .../far-conjugate)"})
+                             "near-reflections": "glide(1.001), rotoreflection(1e-3)", "far conjugators": "3 generic directions at distance 3 and 5 (keys .../far-conjugate)",
+                             "matrix scales": "1 and each of %s (far conjugators: 1 and one of them, round-robin); keys .../rescaled-matrix" % REFLECTION_MATRIX_SCALES})
     if want("coxeter-reflections"):
         ctx.product("coxeter-reflections", "checks.c15:case_coxeter", list(coxeter_cases(q)), chunk=2,
                     domains={"triangle groups": "quick: 7 triples, all orders; thorough: all hyperbolic (p,q,r) with entries <= 8", "rank 4": "linear diagrams [3,5,3] [5,3,4] [4,3,5] [5,3,5]",
